@@ -335,3 +335,14 @@ Qed.
 Check C08_ok_implies.
 Check C08_unknown_reported.
 Check C08_fee_velocity.
+
+(** The feerate estimate behind the non-beneficial-value bound of the on-chain model is the one in the source.  Gen/TxUtilGen.v is the statement-by-statement translation of [estimate_feerate_per_kw]
+    (vls-core/src/util/transaction_utils.rs, regenerated on every run by tools/gen_rustfn.py): for
+    every u64 fee and every non-zero weight it returns, in both build profiles, the model's value. *)
+From VLS Require Gen.TxUtilGen Proofs.TxUtilGenProofs.
+Theorem C08_feerate_estimate_is_source :
+  forall (prof : profile) (fee w : N),
+    fee <= U64MAX -> 0 < w ->
+    TxUtilGen.gen_estimate_feerate_per_kw prof fee w = Val (Onchain.estimate fee w).
+Proof. exact TxUtilGenProofs.gen_estimate_is_model. Qed.
+Print Assumptions C08_feerate_estimate_is_source.
